@@ -26,7 +26,7 @@ type GenParams struct {
 
 // DefaultW is a balanced op mix.
 func DefaultW() map[string]int {
-	return map[string]int{"set": 40, "rm": 14, "save": 18, "rollback": 3, "reopen": 5, "load": 3, "delto": 6, "lfo": 3, "delfrom": 1}
+	return map[string]int{"set": 40, "rm": 14, "save": 18, "rollback": 3, "reopen": 5, "load": 3, "delto": 6, "lfo": 3, "delfrom": 1, "redo": 2}
 }
 
 // Universe draws a key universe of a hostile shape.
@@ -203,8 +203,57 @@ func MakePlan(rng *rand.Rand, p *GenParams) *Plan {
 		}
 		return M.First + int64(rng.Intn(int(M.Latest-M.First+1)))
 	}
+	// writes[v] = the Set/Remove ops that turned version v-1 into version v (for "redo")
+	writes := map[int64][]Op{}
+	var cur []Op
+	emit := func(op Op) {
+		base := o.M.Base
+		x := o.Apply(op)
+		pl.Ops = append(pl.Ops, op)
+		switch op.Kind {
+		case "set", "rm":
+			cur = append(cur, op)
+		case "save":
+			if !x.Fail && !x.Existing && x.Version == base+1 {
+				writes[x.Version] = cur
+			}
+			cur = nil
+		default:
+			cur = nil
+		}
+	}
+	total += p.W["redo"]
 	for len(pl.Ops) < nops {
 		r := rng.Intn(total)
+		if r >= total-p.W["redo"] {
+			// redo: load version v-1 and repeat exactly the writes of the existing version v
+			M := o.M
+			var cands []int64
+			for v := range writes {
+				if M.Exists(v) && M.Exists(v-1) {
+					cands = append(cands, v)
+				}
+			}
+			if len(cands) == 0 {
+				continue
+			}
+			v := cands[0]
+			for _, c := range cands {
+				if c > v {
+					v = c
+				}
+			}
+			if rng.Intn(3) == 0 {
+				v = cands[rng.Intn(len(cands))]
+			}
+			ws := writes[v]
+			emit(Op{Kind: "load", N: v - 1})
+			for _, w := range ws {
+				emit(w)
+			}
+			emit(Op{Kind: "save"})
+			continue
+		}
 		kind := ""
 		for _, k := range kinds {
 			if r < p.W[k] {
@@ -284,8 +333,7 @@ func MakePlan(rng *rand.Rand, p *GenParams) *Plan {
 				continue
 			}
 		}
-		o.Apply(op)
-		pl.Ops = append(pl.Ops, op)
+		emit(op)
 	}
 	return pl
 }
